@@ -72,3 +72,19 @@ def crosscheck(out, label, summary, mc):
     out.cov.setdefault("reachable_set_crosscheck", []).append(cc)
     if summary["states"] != mc["distinct"]:
         out.add_violation(["reachable-set", label, "real=%d" % summary["states"], "spec=%d" % mc["distinct"]], record=cc, validator="crosscheck")
+
+
+def builder_programs(out, tier, seed):
+    """every builder program of <= 3 (thorough 4) setter calls (chmod_b, chown_b, copy_b) on one fixed tree, judged through the folds"""
+    vlib.build("chmoddrv")
+    d = sub("prog")
+    pe = os.path.join(d, "penv.json")
+    json.dump(PENV, open(pe, "w"))
+    try:
+        files = vlib.run_workers("chmoddrv", ["--set", "prog", "--tier", tier, "--seed", str(seed)], 4, d, "prog", stall_s=30, env={"HOME": "/h"}, clean_env=True)
+    except Stall as s:
+        vlib.stall_violation(out, s, "chmoddrv:prog")
+        return
+    chunks = vlib.split_chunks(files, d, "progc", 2)
+    checked, classes = vlib.tlc_validate("Trace_Vfs", chunks, extra_env=dict(PENV=pe))
+    out.absorb("Trace_Vfs", checked, classes, label="builder programs (exhaustive)", grouped=True)
